@@ -813,6 +813,13 @@ def patch_output_always_written(ctx, rule):
         raise AnalysisError('main_patch: local holding args.output not found')
     writes = [repo.stmt_of(c) for c in calls_in(fn, nested=False) if isinstance(c.func, ast.Attribute) and c.func.attr in ('write', 'dump') and
               any(isinstance(a, ast.Name) and a.id == outvar for a in c.args)]
+    # ... or a write through a file object opened on the output path
+    for w in [n for n in walk_no_nested(fn) if isinstance(n, ast.With)]:
+        if any(isinstance(c, ast.Call) and dotted(c.func) in ('open', 'io.open', 'codecs.open') and c.args and dotted(c.args[0]) == outvar for it in w.items for c in ast.walk(it.context_expr)):
+            fobj = [dotted(it.optional_vars) for it in w.items if it.optional_vars is not None]
+            for c in calls_in(w, nested=False):
+                if isinstance(c.func, ast.Attribute) and c.func.attr == 'write' and dotted(c.func.value) in fobj:
+                    writes.append(repo.stmt_of(c))
     tests = [s for s in g.stmts() if isinstance(s, ast.If) and isinstance(s.test, ast.Name) and s.test.id == outvar]
     if not writes or not tests:
         raise AnalysisError('main_patch: `if <output>: nbformat.write(<result>, <output>)` not found')
@@ -1143,17 +1150,20 @@ def stdout_handler_is_json_lossless(ctx, rule):
 @extra('C08', 'R08.16', 'the output file is opened for writing only when the complete content exists (as bytes, or as ASCII-only text): serialising or encoding after the open '
        'can fail with the file already truncated -- an earlier result, or for the git driver the user\'s own file, is gone although the run reports failure', 2)
 def r08_16(ctx, rule):
+    _r_content_before_open(ctx, rule, 'nbdime.nbmergeapp:main_merge', 'out')
+
+
+def _r_content_before_open(ctx, rule, fid, out_attr):
     from ..util import local_defs
     repo, cg = ctx.repo, ctx.cg
-    fid = 'nbdime.nbmergeapp:main_merge'
     fn = repo.func(fid)
     defs = local_defs(fn)
     outvar = None
     for nm, ds in defs.items():
-        if any(isinstance(v, ast.Attribute) and v.attr == 'out' for v, k, st in ds):
+        if any(isinstance(v, ast.Attribute) and v.attr == out_attr for v, k, st in ds):
             outvar = nm
     if outvar is None:
-        raise AnalysisError('main_merge: the local holding args.out was not found')
+        raise AnalysisError('%s: the local holding args.%s was not found' % (fid, out_attr))
     n = 0
     # a helper that is handed the output path does the writing: judge it with the path parameter in the role of the output
     work = [(fn, fid, outvar, defs)]
@@ -1198,7 +1208,7 @@ def r08_16(ctx, rule):
                          'inside the block that holds %s open, %s still has to serialise or encode: if that fails the file is already truncated' % (
                              outvar, repo.norm(late[0])[:60] if late else 'the text-mode write'), (late or [c])[0])
     if n == 0:
-        raise AnalysisError('main_merge: no write to the output file found')
+        raise AnalysisError('%s: no write to the output file found' % fid)
 
 
 # ------------------------------------------------------------------------------------------------ output alignment does not look at ignorable fields
@@ -3808,3 +3818,74 @@ def _r_key_filters_do_not_nest(ctx, rule):
 @extra('C12', 'R12.14', 'stating the same ignore options again does not change the differ table: a key filter is never wrapped around another key filter', 1)
 def r12_14(ctx, rule):
     _r_key_filters_do_not_nest(ctx, rule)
+
+
+@extra('C12', 'R12.15', 'an entry point leaves the process-wide differ table in the state its OWN command line and configuration ask for: the ignore flags are installed on every '
+       'run (not only when one was given), and a configured Ignore mapping is installed on a table that was reset first', 2)
+def r12_15(ctx, rule):
+    from ..cfg import CFG, cond_guards
+    from ..util import names_in
+    repo, cg = ctx.repo, ctx.cg
+    fid = 'nbdime.args:process_diff_flags'
+    fn = repo.func(fid)
+    calls = [c for c in calls_in(fn, nested=False) if any(t == ('func', 'nbdime.diffing.notebooks:set_notebook_diff_targets') for t in cg.resolve(c.func, fn))]
+    if len(calls) != 1:
+        raise AnalysisError('process_diff_flags: set_notebook_diff_targets call not found')
+    g = CFG(fn)
+    guards = list(cond_guards(g, repo.stmt_of(calls[0])))
+    ok = not guards
+    ctx.inst(rule, fid, 'set_notebook_diff_targets(...) %s' % ('unconditional' if ok else 'only under `%s`' % ast.unparse(guards[0][0])), ok,
+             'installed on every run' if ok else
+             'without a flag nothing is installed, so the table keeps what an EARLIER main() in the same process installed: nbdiff a b after nbdiff -s a b (one process: a '
+             'test suite, a Python wrapper) still ignores everything but sources', calls[0])
+    fid2 = 'nbdime.args:ConfigBackedParser.parse_known_args'
+    fn2 = repo.func(fid2)
+    inst = [c for c in calls_in(fn2, nested=False) if any(t == ('func', 'nbdime.diffing.notebooks:set_notebook_diff_ignores') for t in cg.resolve(c.func, fn2))]
+    if not inst:
+        raise AnalysisError('parse_known_args: set_notebook_diff_ignores call not found')
+    g2 = CFG(fn2)
+    resets = [c for c in calls_in(fn2, nested=False) if any(t == ('func', 'nbdime.diffing.notebooks:reset_notebook_differ') for t in cg.resolve(c.func, fn2))]
+    ok2 = bool(resets) and all(g2.dominated_by(repo.stmt_of(c), [repo.stmt_of(r) for r in resets]) for c in inst)
+    ctx.inst(rule, fid2, repo.norm(inst[0]) + ('  [after reset_notebook_differ()]' if ok2 else '  [no reset before]'), ok2,
+             'the configured ignores replace whatever was there' if ok2 else
+             'the Ignore mapping of THIS entry point\'s configuration is added to the process-wide table and nothing ever takes it out: a later entry point in the same process '
+             '(the merge driver after the diff driver) diffs and merges with it -- a local change to an ignored path is silently dropped from the merge', inst[0])
+
+
+@extra('C01', 'R01.22', 'nbpatch opens its output file only when the complete content exists (as R08.16 for nbmerge): a notebook that cannot be encoded must not cost the file that '
+       'was there', 1)
+def r01_22(ctx, rule):
+    _r_content_before_open(ctx, rule, 'nbdime.nbpatchapp:main_patch', 'output')
+
+
+def _r_strict_tells_serialisations_apart(ctx, rule):
+    repo, cg = ctx.repo, ctx.cg
+    fid = 'nbdime.diffing.generic:compare_strict'
+    fn = repo.func(fid)
+    ps = [a.arg for a in fn.args.args]
+    sign = [c for c in ast.walk(fn) if isinstance(c, ast.Call) and (dotted(c.func) or '').split('.')[-1] in ('copysign', 'repr', 'float_repr', 'pack', 'dumps', 'signbit')]
+    both = len({dotted(a) for c in sign for a in c.args if dotted(a) in ps}) == 2
+    ctx.inst(rule, fid, 'signed-zero clause: %s' % (sorted({(dotted(c.func) or '') for c in sign}) or 'none'), both,
+             '0.0 and -0.0 (equal in Python, different JSON texts) are told apart' if both else
+             'the predicate is `==` plus the number-type test: -0.0 == 0.0, both are floats, so a change from 0.0 to -0.0 (they serialise differently) yields an empty diff and '
+             'the patched document is not the second one', fn)
+    # values the mapping differ does not recurse into are compared DEEPLY and type-strictly
+    dd = repo.func('nbdime.diffing.generic:diff_dicts')
+    se = 'nbdime.diffing.generic:strict_equal'
+    cs = 'nbdime.diffing.generic:compare_strict'
+    uses = [c for c in calls_in(dd, nested=False) if any(t[1] in (se, cs) for t in cg.resolve(c.func, dd) if t[0] == 'func')]
+    if not uses:
+        ctx.inst(rule, 'nbdime.diffing.generic:diff_dicts', 'no call of the type-strict equality', False,
+                 'the mapping differ no longer decides "unchanged" with the deep type-strict equality: values it does not recurse into are compared some other way', dd)
+    for c in uses:
+        deep = any(t == ('func', se) for t in cg.resolve(c.func, dd))
+        ctx.inst(rule, 'nbdime.diffing.generic:diff_dicts', repo.norm(c), deep,
+                 'deep, type-strict comparison' if deep else
+                 'values of different Python types are not recursed into (a plain dict against a NotebookNode -- what patch() returns -- fails `type(a) is type(b)`) and are '
+                 'then compared with compare_strict, which for containers is plain ==: {"k": 1} == {"k": True}, so the type change inside is lost and the diff is empty', c)
+
+
+@extra('C02', 'R02.23', 'the strict comparison tells apart every pair of values that serialise differently: signed zeros; and values the mapping differ does not recurse into '
+       'are compared deeply (strict_equal), not with the shallow predicate', 2)
+def r02_23(ctx, rule):
+    _r_strict_tells_serialisations_apart(ctx, rule)
